@@ -69,11 +69,14 @@ for it in range(N):
     if rs.rand() < 0.5:      # a schedule kept on its own calendar (longer history, weekend rows): it is read by date
         extra_idx = pd.date_range(idx[0] - pd.Timedelta(days=5), idx[-1], freq="D")
         nv = pd.Series(7e5, index=extra_idx).where(~extra_idx.isin(idx), nv.reindex(extra_idx))
-    st2 = FixedIncomeStrategy("r", [A.WeighSpecified(cp=-0.4, fi=0.6), A.SetNotional("nv"), A.Rebalance()], children=[CouponPayingSecurity("fi"), CouponPayingSecurity("cp")])
+    st2 = FixedIncomeStrategy("r", [A.WeighSpecified(cp=-0.4, fi=0.6), A.SetNotional("nv"), A.Rebalance()], children=[(FixedIncomeSecurity("fi") if rs.rand() < 0.5 else CouponPayingSecurity("fi")), CouponPayingSecurity("cp")])      # a plain fixed-income security is sized by par as well
     t = bt.Backtest(st2, data[["fi", "cp"]], additional_data={"coupons": coup[["fi", "cp"]], "nv": nv}, integer_positions=False); t.run(); evals += 1
     for d in range(n):
         tot = float(nv.loc[idx[d]]); got = t.strategy.notional_values.loc[idx[d]]
         if abs(float(got) - tot) > 1e-6: bad("rebalance-scales-to-SetNotional", date=str(idx[d].date()), got=got, want=tot)
+        for nm_, w_ in (("fi", 0.6), ("cp", -0.4)):      # each target is its fraction of the notional, in par
+            pos_ = float(t.strategy[nm_].positions.loc[idx[d]])
+            if abs(pos_ - w_ * tot) > 1e-6 * max(1.0, abs(tot)): bad("rebalance-target-is-a-fraction-of-notional", security=nm_, kind=type(t.strategy[nm_]).__name__, date=str(idx[d].date()), position=pos_, want=w_ * tot); break
     # renormalised result: the index moves additively by PAR x (change in value net of THAT date's flows) / normalising value, with
     # capital flows on the first date (initial capital) and during the run
     from bt.backtest import RenormalizedFixedIncomeResult
@@ -96,6 +99,16 @@ for it in range(N):
     for d in range(len(vals)):
         if abs(float(rn.iloc[d]) - ref[d]) > 1e-6 * max(1.0, abs(ref[d])):
             bad("renormalised-index-moves-by-change-in-value-net-of-the-date's-flows", date=str(vals.index[d].date()), got=float(rn.iloc[d]), want=ref[d], initial_capital=cap0, flows=[float(x) for x in flows.values]); break
+    # a fixed-income parent closes a fixed-income sub-strategy: its children are liquidated, its notional goes to zero, nothing raises
+    sub_ = FixedIncomeStrategy("sub", [], children=[FixedIncomeSecurity("fi")]); top_ = FixedIncomeStrategy("top", [], children=[sub_, CouponPayingSecurity("cp")])
+    top_.setup(data[["fi", "cp"]], coupons=coup[["fi", "cp"]]); top_.update(idx[0]); top_.update(idx[1])
+    top_["sub"].transact(float(rs.randint(10, 200)), "fi"); top_.transact(50.0, "cp"); top_.update(idx[1]); evals += 1
+    try:
+        top_.close("sub"); top_.update(idx[1])
+        if abs(float(top_["sub"].notional_value)) > 1e-9 or abs(float(top_["sub"]["fi"].position)) > 1e-9 or abs(float(top_.notional_value) - 50.0) > 1e-9:
+            bad("closing-a-fixed-income-sub-strategy-liquidates-it", sub_notional=float(top_["sub"].notional_value), position=float(top_["sub"]["fi"].position), parent_notional=float(top_.notional_value))
+    except Exception as e:
+        bad("closing-a-fixed-income-sub-strategy-liquidates-it", raised=repr(e)[:160])
     if it < 1: samples.append(dict(tables=int(which), final_price=float(s.price)))
 print("JSON:" + json.dumps(dict(evaluations=evals, distinct=len(distinct), failures=fails[:5], samples=samples,
       rule="one fixed-income strategy holding all five security types, long and short, random coupon schedules, holding-cost tables supplied none/long/short(subset)/both; a notional schedule with a zero; the renormalised result recomputed date by date with initial capital 0 / non-zero and random capital flows",
